@@ -59,12 +59,18 @@ impl Engine {
             }
         };
         let (n, l) = (self.m.n, self.m.l);
-        self.chk(&["C01"], st.total_native_token.u128() == n, || {
+        let mut t_n: Vec<&'static str> = vec!["C01"];
+        t_n.extend(self.ctx_tags.iter());
+        let mut t_l: Vec<&'static str> = vec!["C03"];
+        t_l.extend(self.ctx_tags.iter());
+        let mut t_f: Vec<&'static str> = vec!["C11"];
+        t_f.extend(self.ctx_tags.iter());
+        self.chk(&t_n, st.total_native_token.u128() == n, || {
             format!("State.total_native_token={} but forwarded-minus-set-aside model says {n}", st.total_native_token)
         });
-        self.chk(&["C03"], st.total_liquid_stake_token.u128() == l, || format!("State.total_liquid_stake_token={} model {l}", st.total_liquid_stake_token));
+        self.chk(&t_l, st.total_liquid_stake_token.u128() == l, || format!("State.total_liquid_stake_token={} model {l}", st.total_liquid_stake_token));
         let (rw, fees) = (self.m.rewards, self.m.fees);
-        self.chk(&["C11"], st.total_reward_amount.u128() == rw && st.total_fees.u128() == fees, || {
+        self.chk(&t_f, st.total_reward_amount.u128() == rw && st.total_fees.u128() == fees, || {
             format!("State rewards/fees = {}/{} model {rw}/{fees}", st.total_reward_amount, st.total_fees)
         });
         let nominee = self.m.nominee.clone().unwrap_or_default();
@@ -113,6 +119,10 @@ impl Engine {
         let bal = self.ch.balance(&contract, STAKED_DENOM);
         if !self.m.fees_unbacked {
             let owed = self.m.received_unpaid() + self.m.fees + self.m.refundable_sum(STAKED_DENOM);
+            // the same identity with the fee balance the contract itself reports
+            let reported = self.ch.query::<StateResponse>(QueryMsg::State {}).map(|s| s.total_fees.u128()).unwrap_or(self.m.fees);
+            let owed2 = self.m.received_unpaid() + reported + self.m.refundable_sum(STAKED_DENOM);
+            self.chk(&["C02"], bal == owed2, || format!("contract holds {bal} staked asset but State.total_fees={reported} plus unwithdrawn batches and refundable transfers make {owed2}"));
             let (x1, x2, x3) = (self.m.received_unpaid(), self.m.fees, self.m.refundable_sum(STAKED_DENOM));
             self.chk(&["C02"], bal == owed, || {
                 format!("contract holds {bal} staked asset, owes {owed} = unwithdrawn batches {x1} + fees {x2} + refundable {x3}")
